@@ -20,11 +20,16 @@ RULE = ("(1) round trip: every stock case that loads (xlsx/json) and generated n
         "independent nodal balance of the generating data (transformer CW 1/2/3, CZ 1/2, branch line shunts GI/BI/GJ/BJ, "
         "several loads per bus, offline devices). (3) stock .raw / .m files: ANDES' power-flow solution must satisfy the "
         "nodal balance of an independent reading of the same text. (4) system2mpc -> mpc2system yields a system with the "
-        "same solution. Non-trivial = case with >= 1 transformer on a non-system base or off-nominal tap, >= 1 bus with two "
+        "same solution. (5) PSS/E dynamic data: stock raw+dyr pairs and generated dyr files (own writer: 18 model record layouts "
+        "typed in from the PSS/E data sheets, three number styles, continuation lines, drawn record order, two machines on "
+        "a bus) loaded by ANDES: every record has exactly one device of the same-named model attached to the machine (bus, id) "
+        "of the record whose input parameters equal the record's constants under their documented meaning (M = 2H, "
+        "X''q = X''d), machine base / status / source impedance from the generator record. Non-trivial = case with >= 1 transformer on a non-system base or off-nominal tap, >= 1 bus with two "
         "loads, or >= 1 offline device; distinct by the case JSON / file name.")
 ASSUMPTIONS = [
     "xlsx stores <= 17 significant digits: numeric fields are compared with relative 1e-13; json exactly.",
     "RAW transformers are generated with winding-2 at nominal ratio and without magnetising admittance (where the formats' conventions are unambiguous); stock transformers outside that subset are counted, not judged.",
+    "DYR: only the 18 record layouts encoded in vf/oracle/dyrio.py are judged (others counted); ids are unquoted integers and fields blank-separated, as in every stock dyr file; values violating a parameter's declared constraint are counted, not judged.",
     "MATPOWER has one load / shunt per bus: several devices per bus are summed by the writer; device bases are converted to the system base.",
 ]
 
@@ -537,10 +542,272 @@ def camp_stock_text(ctx):
         ctx.nontrivial(dict(stock=rel), sample=dict(stock=rel, buses=len(net['buses']), judged=bool(judged)))
 
 
+# ---------------------------------------------------------------------------------------------
+# (5) PSS/E dynamic data: ANDES' reading of a dyr file vs an independent reading of the same text
+# ---------------------------------------------------------------------------------------------
+
+def _machine_of(ss, dev_model, uid, kind):
+    """(bus, machine id) of the machine a loaded dynamic device is attached to, following the index fields."""
+    mdl = getattr(ss, dev_model)
+    if kind == 'avr':
+        avr = mdl.avr.v[uid]
+        exc = ss.Exciter.idx2model(avr)
+        syn = exc.syn.v[exc.idx2uid(avr)]
+    elif kind == 'syn':
+        syn = mdl.syn.v[uid]
+    else:
+        syn = None
+    if syn is not None:
+        gm = ss.SynGen.idx2model(syn)
+        gu = gm.idx2uid(syn)
+        gen = gm.gen.v[gu]
+    else:
+        gen = mdl.gen.v[uid]
+    sg = ss.StaticGen.idx2model(gen)
+    su = sg.idx2uid(gen)
+    return sg.bus.v[su], sg.subidx.v[su], gen
+
+
+def _violates_declared_constraint(p, val):
+    prop = p.property
+    return (prop.get('non_zero') and val == 0) or (prop.get('non_positive') and val > 0) or (prop.get('non_negative') and val < 0) \
+        or (prop.get('mandatory') and val is None)
+
+
+def compare_dyr(ctx, ss, records, label, sig, gen_data=None):
+    """Every record of an encoded model must have exactly one device of the same-named ANDES model attached to the machine
+    (bus, id) of the record, whose input-base parameters are the record's constants under their documented meaning."""
+    from ..oracle import dyrio
+    n_judged = 0
+    by_model = {}
+    for r in records:
+        by_model.setdefault(r['model'], []).append(r)
+    for model, recs in sorted(by_model.items()):
+        if model not in dyrio.LAYOUT:
+            ctx.count('dyr:model_not_encoded:' + model, len(recs))
+            continue
+        kind = dyrio.LAYOUT[model][0]
+        mdl = getattr(ss, model)
+        located = {}
+        for uid in range(mdl.n):
+            try:
+                bus, mid, gen = _machine_of(ss, model, uid, kind)
+            except Exception as e:       # a dangling index is a wrong link
+                ctx.fail('dyr_device_link_broken', dict(file=label, model=model, uid=uid, error=repr(e)[:200]), sig=dict(sig, model=model))
+                continue
+            located.setdefault((bus, mid), []).append((uid, gen))
+        aliased = sum(len(v) for m, v in by_model.items() if dyrio.ALIASES.get(m) == model)
+        if mdl.n != len(recs) + aliased:
+            ctx.fail('dyr_device_count_differs_from_file', dict(file=label, model=model, andes=mdl.n, records=len(recs), aliased=aliased),
+                     sig=dict(sig, model=model))
+        for r in recs:
+            if r.get('cons') is None:
+                ctx.count('dyr:short_record')
+                continue
+            devs = located.get((r['bus'], r['id']), [])
+            if aliased:
+                # records of another PSS/E model also populate this class: pick by parameters below
+                pass
+            if len(devs) == 0:
+                ctx.fail('dyr_record_has_no_device', dict(file=label, model=model, bus=r['bus'], id=r['id'], located=sorted(map(str, located))[:8]),
+                         sig=dict(sig, model=model))
+                continue
+            exp = dyrio.expected_params(model, dict(r['cons'], **(r['ints'] or {})))
+            best = None
+            for uid, gen in devs:
+                bad = []
+                for name, val in exp.items():
+                    p = getattr(mdl, name)
+                    got = p.vin[uid] if hasattr(p, 'vin') else p.v[uid]
+                    if _violates_declared_constraint(p, val):
+                        ctx.count('dyr:value_outside_declared_constraint')
+                        continue
+                    if not (abs(float(got) - float(val)) <= 1e-12 * max(1.0, abs(float(val)))):
+                        bad.append((name, float(got), float(val)))
+                if best is None or len(bad) < len(best[1]):
+                    best = (uid, bad, gen)
+            uid, bad, gen = best
+            if bad:
+                ctx.fail('dyr_parameter_differs_from_file', dict(file=label, model=model, bus=r['bus'], id=r['id'],
+                                                                 differences=[dict(param=a, andes=b, file_value=c) for a, b, c in bad[:6]]),
+                         sig=dict(sig, model=model, param=bad[0][0]))
+            if kind == 'gen' and gen_data is not None:
+                g = gen_data.get((r['bus'], r['id']))
+                if g is not None:
+                    for name, val in (('Sn', g['Sn']), ('Vn', g['Vn']), ('u', g['u']), ('bus', r['bus'])):
+                        got = getattr(mdl, name).v[uid] if name in ('u', 'bus') else getattr(mdl, name).vin[uid]
+                        if got != val:
+                            ctx.fail('dyr_machine_base_or_status_differs_from_power_flow_data',
+                                     dict(file=label, model=model, bus=r['bus'], id=r['id'], field=name, andes=got, file_value=val),
+                                     sig=dict(sig, model=model, param=name))
+            n_judged += 1
+            ctx.count('dyr:record_judged:' + model)
+    return n_judged
+
+
+STOCK_DYR = [('ieee14/ieee14.raw', 'ieee14/ieee14.dyr'), ('ieee14/ieee14.raw', 'ieee14/ieee14_ieeevc.dyr'),
+             ('kundur/kundur.raw', 'kundur/kundur_full.dyr'), ('kundur/kundur.raw', 'kundur/kundur_gencls.dyr'),
+             ('npcc/npcc.raw', 'npcc/npcc_full.dyr'), ('wecc/wecc.raw', 'wecc/wecc_full.dyr'), ('wecc/wecc.raw', 'wecc/wecc_gencls.dyr'),
+             ('nordic44/N44_BC.raw', 'nordic44/N44_BC.dyr')]
+
+
+def raw_gen_data(text):
+    """(bus, id) -> Sn (MBASE), Vn (bus base kV), u (STAT) by an independent reading of the RAW text."""
+    net = rawio.read_raw(text)
+    kv = {b['idx']: b['Vn'] for b in net['buses']}
+    out = {}
+    for g in net['slacks'] + net['pvs']:
+        out[(g['bus'], g['sub'])] = dict(Sn=g['Sn'], Vn=kv[g['bus']], u=g['u'])
+    return out
+
+
+def camp_dyr_stock(ctx):
+    from ..oracle import dyrio
+    root = build.cases_root()
+    pairs = [p for k, p in enumerate(STOCK_DYR) if k % ctx.nshards == ctx.shard]
+    for raw, dyr in pairs:
+        rp, dp = os.path.join(root, raw), os.path.join(root, dyr)
+        if not (os.path.exists(rp) and os.path.exists(dp)):
+            ctx.count('dyr:stock_pair_missing')
+            continue
+        ctx.current_case = dict(stock_dyr=dyr)
+        records = dyrio.read_dyr(open(dp, errors='replace').read())
+        try:
+            gen_data = raw_gen_data(open(rp, errors='replace').read())
+        except Exception as e:
+            gen_data = None
+            ctx.note('independent RAW reader failed on %s: %s' % (raw, str(e)[:100]))
+        ss = build.load_case(rp, addfile=dp)
+        ctx.evaluated()
+        n = compare_dyr(ctx, ss, records, dyr, dict(fmt='dyr', stock=True), gen_data)
+        ctx.nontrivial(dict(stock_dyr=dyr), sample=dict(stock_dyr=dyr, records=len(records), judged=n))
+
+
+_NEG = ('MIN', 'UC', 'VCL')
+
+
+@st.composite
+def dyr_cases(draw):
+    from ..oracle import dyrio
+    net = draw(gnet.networks(max_buses=6))
+    ngen = len(net['slacks']) + len(net['pvs'])
+    val = st.floats(0.01, 9.0).map(lambda x: float('%.5g' % x)) | st.sampled_from([0.0, 1.0, 0.05, 99.0, 1e-3])
+
+    def record(model):
+        kind, ints, cons = dyrio.LAYOUT[model]
+        iv = [draw(st.integers(1, 5)) if nm.startswith('MODE') and nm == 'MODE' else 0 for nm in ints]
+        cv = []
+        for nm in cons:
+            v = draw(val)
+            cv.append(-v if nm.endswith(_NEG) else v)
+        return dict(model=model, ints=iv, cons=cv)
+
+    dyn = []
+    for k in range(ngen):
+        mach = draw(st.sampled_from(['GENROU', 'GENROU', 'GENCLS', None]))
+        recs = []
+        if mach:
+            recs.append(record(mach))
+            exc = draw(st.sampled_from([None, 'SEXS', 'IEEEX1', 'EXDC2', 'ESDC2A', 'IEEET1', 'EXST1', 'ESST3A', 'EXAC1']))
+            gov = draw(st.sampled_from([None, 'TGOV1', 'IEEEG1', 'IEESGO', 'HYGOV', 'GAST']))
+            if gov:
+                recs.append(record(gov))
+            if exc:
+                recs.append(record(exc))
+                pss = draw(st.sampled_from([None, None, 'IEEEST', 'ST2CUT']))
+                if pss:
+                    recs.append(record(pss))
+                if draw(st.integers(0, 3)) == 0:
+                    recs.append(record('IEEEVC'))
+        dyn.append(recs)
+    return dict(net=net, dyn=dyn, style=draw(st.sampled_from(['g17', 'fixed', 'exp'])), per_line=draw(st.sampled_from([0, 0, 4, 5])),
+                width=draw(st.sampled_from([1, 3])), order=draw(st.integers(0, 10 ** 6)), zsrc=draw(st.sampled_from([(0.0, 0.3), (0.004, 0.25)])))
+
+
+def dyr_case(ctx, c):
+    from ..oracle import dyrio
+    net, bmap = int_idx(to_system_base(c['net']))
+    gens = net['slacks'] + net['pvs']
+    seen = {}
+    for g in gens:
+        seen[g['bus']] = seen.get(g['bus'], 0) + 1
+        g['sub'] = seen[g['bus']]
+        g['q0'] = 0.0
+        g['zr'], g['zx'] = c['zsrc']
+    kv = {b['idx']: b['Vn'] for b in net['buses']}
+    records = []
+    for g, recs in zip(gens, c['dyn']):
+        for r in recs:
+            records.append(dict(r, bus=g['bus'], id=g['sub']))
+    if not records:
+        ctx.count('dyr:no_dynamic_record')
+        return
+    # file order: a permutation drawn by the case (a controller may precede its machine)
+    k = c['order']
+    order = []
+    pool = list(range(len(records)))
+    while pool:
+        order.append(pool.pop(k % len(pool)))
+        k = k // 7 + 3
+    records = [records[i] for i in order]
+    d = sandbox.scratch_dir('c13dyr')
+    rp, dp = os.path.join(d, 'case.raw'), os.path.join(d, 'case.dyr')
+    text = dyrio.write_dyr(records, style=c['style'], per_line=c['per_line'], width=c['width'])
+    with open(rp, 'w') as fh:
+        fh.write(rawio.write_raw(net))
+    with open(dp, 'w') as fh:
+        fh.write(text)
+    mine = dyrio.read_dyr(text)
+    # self-test of the independent writer/reader pair (a harness matter, never a verdict)
+    assert len(mine) == len(records), 'own DYR reader lost a record'
+    for a, b in zip(mine, records):
+        assert a['model'] == b['model'] and a['bus'] == b['bus'] and a['id'] == b['id']
+        assert a['cons'] is not None and len(a['cons']) == len(b['cons'])
+        for x, y in zip(a['cons'].values(), b['cons']):
+            assert abs(x - y) <= 1e-3 * max(1.0, abs(y)), 'own DYR reader disagrees with own writer'
+    sig = dict(fmt='dyr', style=c['style'], multiline=bool(c['per_line']))
+    try:
+        ss = build.load_case(rp, addfile=dp)
+    except Exception as e:
+        ctx.fail('dyr_file_rejected', dict(error=repr(e)[:300], dyr=text[:600]), sig=sig)
+        return
+    if ss is None or not ss.is_setup:
+        ctx.fail('dyr_file_rejected', dict(error='load returned no set-up system', dyr=text[:600]), sig=sig)
+        return
+    gen_data = {(g['bus'], g['sub']): dict(Sn=g['Sn'], Vn=kv[g['bus']], u=g['u']) for g in gens}
+    n = compare_dyr(ctx, ss, mine, 'generated', sig, gen_data)
+    # source impedance of the power-flow record is the machine's ra / classical x'd
+    for mname in ('GENCLS', 'GENROU'):
+        mdl = getattr(ss, mname)
+        for uid in range(mdl.n):
+            if abs(mdl.ra.vin[uid] - c['zsrc'][0]) > 1e-15 or (mname == 'GENCLS' and abs(mdl.xd1.vin[uid] - c['zsrc'][1]) > 1e-15):
+                ctx.fail('dyr_machine_source_impedance_differs', dict(model=mname, ra=float(mdl.ra.vin[uid]), file_value=list(c['zsrc'])),
+                         sig=dict(sig, model=mname))
+    models = sorted(set(r['model'] for r in records))
+    ctx.count('dyr:style:' + c['style'])
+    if c['per_line']:
+        ctx.count('dyr:multiline')
+    if any(v > 1 for v in seen.values()):
+        ctx.count('dyr:two_machines_on_a_bus')
+    if n >= 2 and len(models) >= 2:
+        ctx.nontrivial(c, sample=dict(models=models, records=len(records), style=c['style'], per_line=c['per_line'], dyr_head=text[:300]))
+
+
+def camp_dyr(ctx):
+    def body(c):
+        ctx.evaluated()
+        dyr_case(ctx, c)
+    quick = ctx.tier == 'quick'
+    if ctx.shard == 0:
+        camp_dyr_stock(ctx)
+    drive(ctx, dyr_cases(), body, 12 if quick else 250, name='dyr', chunk=12, budget_s=100 if quick else 1200, shrink_budget_s=40)
+
+
 CAMPAIGNS = {
     'xfmt': dict(fn=camp_xfmt, shards=dict(quick=8, thorough=12)),
     'roundtrip': dict(fn=camp_roundtrip, shards=dict(quick=6, thorough=12)),
     'stock_text': dict(fn=camp_stock_text, shards=dict(quick=2, thorough=4)),
+    'dyr': dict(fn=camp_dyr, shards=dict(quick=6, thorough=12)),
 }
 
 
@@ -550,3 +817,8 @@ def replay(ctx, rec):
         xfmt_case(ctx, c)
     elif 'source' in c:
         roundtrip_case(ctx, c)
+    elif 'dyn' in c:
+        dyr_case(ctx, c)
+    elif 'stock_dyr' in c:
+        ctx.nshards, ctx.shard = 1, 0
+        camp_dyr_stock(ctx)
